@@ -10,7 +10,7 @@ import os
 from mc import recs
 from mc.alphabets import alphabet
 from mc.faults import drain
-from mc.obs import obs_list
+from mc.obs import obs, obs_list
 from mc.recs import rs
 from mc.report import Run, jhash
 from mc.space import explore
@@ -49,6 +49,15 @@ def cases(tier, seed):
             yield {"kind": "single", "t": lt, "records": [rs("j/list", [[lt, "xs"]], ["[%s, %s]" % (a, b)])]}
     for v in alphabet("stringlist", seed):
         yield {"kind": "single", "t": "stringlist", "records": [rs("j/one", [["stringlist", "x"]], [v])]}
+    # documents longer than the usual read buffers (64 KiB, 128 KiB)
+    for t, v in (("string", "S('x', 65537)"), ("string", "S('x', 131073)"), ("string", "S('\\xe9', 70000)"), ("bytes", "S(b'\\xab', 100000)"), ("string[]", "[S('y', 140000), 'z']"),
+                 ("varint", "10**4000"), ("uri", "S('u', 200000)")):
+        yield {"kind": "single", "t": t + ":long", "records": [rs("j/long", [[t, "x"], ["varint", "n"]], [v, "1"]), rs("j/long", [[t, "x"], ["varint", "n"]], ["None", "2"])]}
+    # grouped records: the document's keys are the union of the members' fields (first member wins), read back as that flat view
+    GA = rs("j/ga", [["string", "s"], ["varint", "n"]], ["'va'", "1"])
+    GB = rs("j/gb", [["bytes", "b"], ["varint", "n"], ["boolean", "flag"]], ["b'zz'", "2", "None"])
+    for members in ([GA, GB], [GB, GA], [GA], [GA, GA]):
+        yield {"kind": "grouped", "t": "grouped", "records": [{"group": "j/grp", "members": members}, GA]}
     atoms = [("string", "'a'"), ("string", "None"), ("string", "'\\udc80'"), ("varint", "2**200"), ("varint", "None"), ("float", "nan"), ("float", "-0.0"),
              ("boolean", "True"), ("boolean", "None"), ("datetime", "dt(2020,6,1,12,0,0,5,tz=off(5,30))"), ("datetime", "None"), ("bytes", "b'\\x00\\xff'"),
              ("bytes", "None"), ("digest", "('d41d8cd98f00b204e9800998ecf8427e', None, None)"), ("digest", "None"), ("net.ipaddress", "'::1'"),
@@ -230,7 +239,7 @@ def produce(channel, records, descriptors, indent):
 
 
 def run_case(case):
-    from flow.record import RecordReader
+    from flow.record import GroupedRecord, RecordReader
 
     h = jhash(case)
     try:
@@ -271,14 +280,15 @@ def run_case(case):
             # (2) key set and (4) plain JSON values
             bad = False
             for r, d in zip(records, recdocs):
-                want_keys = set(r.__slots__)
+                slots = list(r.__slots__) if not isinstance(r, GroupedRecord) else list(dict.fromkeys(k for m in r.records for k in m.__slots__))
+                want_keys = set(slots)
                 if descriptors:
                     want_keys |= {"_type", "_recorddescriptor"}
                 if not isinstance(d, dict) or set(d.keys()) != want_keys:
                     viol.append(("C14:keys:%s" % cfg, case, {"channel": ch, "keys": sorted(d.keys()) if isinstance(d, dict) else repr(d)[:80], "want": sorted(want_keys)}))
                     bad = True
                     break
-                for k in r.__slots__:
+                for k in slots:
                     want = expected_json_value(getattr(r, k))
                     if not json_eq(want, d[k]):
                         ft_ = r._field_types.get(k)
@@ -303,7 +313,17 @@ def run_case(case):
                     viol.append(("C14:read-raises:%s:desc=%s:%s" % (tkey, descriptors, type(exc).__name__), case, {"channel": ch, "error": repr(exc)[:200]}))
                     outs.append("read-raise")
                     continue
-                if descriptors:
+                if descriptors and case["kind"] == "grouped":
+                    # a grouped record comes back as its flat view: same type name, the union of the fields, the same values
+                    if len(got) != len(records):
+                        viol.append(("C14:roundtrip:grouped:count", case, {"channel": ch, "got": len(got), "want": len(records)}))
+                        continue
+                    for r, g in zip(records, got):
+                        keys = list(dict.fromkeys(k for m in r.records for k in m.__slots__)) if isinstance(r, GroupedRecord) else list(r.__slots__)
+                        if g._desc.name != r._desc.name or [k for k in g.__slots__ if not k.startswith("_")] != [k for k in keys if not k.startswith("_")] or set(g.__slots__) != set(keys) or any(obs(getattr(g, k)) != obs(getattr(r, k)) for k in keys):
+                            viol.append(("C14:roundtrip:grouped:flat-view-differs", case, {"channel": ch, "read": repr(g)[:200]}))
+                            break
+                elif descriptors:
                     d_ = recs.list_diff(expected, obs_list(got))
                     if d_:
                         viol.append(("C14:roundtrip:%s:%s" % (d_[2], d_[3]), case, {"channel": ch, "index": d_[0], "where": d_[1]}))
@@ -314,7 +334,7 @@ def run_case(case):
                         viol.append(("C14:plain-read-count", case, {"channel": ch, "got": len(got), "want": len(records)}))
                         continue
                     for r, g, d in zip(records, got, recdocs):
-                        for k in r.__slots__:
+                        for k in (r.__slots__ if not isinstance(r, GroupedRecord) else ()):
                             if k.startswith("_"):
                                 continue
                             jv = d[k]
